@@ -456,8 +456,31 @@ func (ex *Exec) loopClauses(l *Loop) *LoopSpec {
 
 // loopVars builds the name environment visible to loop clauses at header hdr,
 // with phi nodes of hdr bound through phiVal.
-func (ex *Exec) loopVars(hdr *ssa.BasicBlock, phiVal func(*ssa.Phi) Term) map[string]SV {
+func (ex *Exec) loopVars(hdr *ssa.BasicBlock, phiVal func(*ssa.Phi) Term, heap *Heap) map[string]SV {
 	vars := ex.paramVars()
+	for n, w := range ex.witness {
+		vars[n] = w
+	}
+	// address-taken locals (not lifted to SSA registers): the name denotes their current content
+	for _, b := range ex.fn.Blocks {
+		if b != hdr && !b.Dominates(hdr) {
+			continue
+		}
+		for _, ins := range b.Instrs {
+			al, ok := ins.(*ssa.Alloc)
+			if !ok || al.Comment == "" || strings.ContainsAny(al.Comment, " .()") {
+				continue
+			}
+			if _, have := ex.vals[al]; !have || heap == nil {
+				continue
+			}
+			func() {
+				defer func() { recover() }()
+				et := al.Type().(*types.Pointer).Elem()
+				vars[al.Comment] = SV{ex.load(ex.locOf(al), heap), et}
+			}()
+		}
+	}
 	// locals defined before the loop: latest dominating DebugRef / phi by name
 	type cand struct {
 		depth, idx int
@@ -559,7 +582,7 @@ func (ex *Exec) enterLoop(b *ssa.BasicBlock, l *Loop, conds []Term, heaps []*Hea
 	// 1. invariants hold on entry
 	if spec != nil {
 		for k, pi := range predIdx {
-			vars := ex.loopVars(b, func(phi *ssa.Phi) Term { return ex.val(phi.Edges[pi]) })
+			vars := ex.loopVars(b, func(phi *ssa.Phi) Term { return ex.val(phi.Edges[pi]) }, heaps[k])
 			sc := ex.specCtx(vars, heaps[k])
 			for _, inv := range spec.Invariants {
 				g := sc.evalBool(inv)
@@ -597,7 +620,7 @@ func (ex *Exec) enterLoop(b *ssa.BasicBlock, l *Loop, conds []Term, heaps []*Hea
 	heapH := ex.applyEffects(heapIn, effs, l, reach)
 	ls.heap = heapH
 	// 4. assume invariants
-	vars := ex.loopVars(b, func(phi *ssa.Phi) Term { return ex.vals[phi] })
+	vars := ex.loopVars(b, func(phi *ssa.Phi) Term { return ex.vals[phi] }, heapH)
 	ls.vars = vars
 	if spec != nil {
 		sc := ex.specCtx(vars, heapH)
@@ -620,7 +643,7 @@ func (ex *Exec) applyEffects(h *Heap, effs []Effect, l *Loop, guard Term) *Heap 
 	for _, e := range effs {
 		if e.all {
 			q.note("%s: havoc of the whole heap (callee or loop body with unknown effects)", ex.fn.Name())
-			return q.havocAll(h, guard)
+			return ex.havocAllKeep(h, guard)
 		}
 	}
 	nh := h.clone()
@@ -736,7 +759,7 @@ func (ex *Exec) exitEdges(b *ssa.BasicBlock, heap *Heap, reach Term) {
 					return ex.val(phi.Edges[pi])
 				}
 				return ex.vals[phi]
-			})
+			}, heap)
 			sc := ex.specCtx(vars, heap)
 			pos := ex.P.fset.Position(firstPos(l.hdr))
 			for _, c := range spec.Exits {
@@ -770,7 +793,7 @@ func (ex *Exec) backEdge(b, hdr *ssa.BasicBlock, cond Term, heap *Heap) {
 	if spec == nil {
 		return
 	}
-	vars := ex.loopVars(hdr, func(phi *ssa.Phi) Term { return ex.val(phi.Edges[pi]) })
+	vars := ex.loopVars(hdr, func(phi *ssa.Phi) Term { return ex.val(phi.Edges[pi]) }, heap)
 	// loop-invariant locals keep the header binding
 	sc := ex.specCtx(vars, heap)
 	for _, inv := range spec.Invariants {
